@@ -44,7 +44,7 @@ def find_head(ex, f):
     return heads[0]
 
 
-def setup_inputs(ex, st, aff, n, npts=None, nsc=None):
+def setup_inputs(ex, st, aff, n, npts=None, nsc=None, vectors=None):
     npts = n if npts is None else npts
     nsc = n if nsc is None else nsc
     width = max(npts, nsc, 1)
@@ -52,7 +52,12 @@ def setup_inputs(ex, st, aff, n, npts=None, nsc=None):
     arrs = [ex.alloc(st, Agg('[array]', [BV(64, False, l) for l in k])) for k in ks]
     sc = ex.alloc(st, Agg('[array]', arrs))
     scref = Ref(sc.addr, (), BV(64, False, 0), BV(64, False, nsc))
-    pts = ex.alloc(st, Agg('[array]', [unit(aff, width, i) for i in range(npts)]))
+    if vectors is not None:
+        # linearly DEPENDENT points (mutually inverse, repeated): coefficient vectors over fewer generators than points
+        pts = ex.alloc(st, Agg('[array]', [GE(aff, [z3.BitVecVal(v % (1 << WS), WS) for v in vec]) for vec in vectors[:npts]]))
+        width = len(vectors[0])
+    else:
+        pts = ex.alloc(st, Agg('[array]', [unit(aff, width, i) for i in range(npts)]))
     ptref = Ref(pts.addr, (), BV(64, False, 0), BV(64, False, npts))
     return ks, scref, ptref, width
 
@@ -76,13 +81,14 @@ def schedule(ex, f, head, proj, aff, w):
     return sched
 
 
-def step(ex, f, head, proj, aff, w, n, pos, nxt, chk, gname, top_bit_assumed=True, tag='', npts=None, nsc=None, optional=False):
+def step(ex, f, head, proj, aff, w, n, pos, nxt, chk, gname, top_bit_assumed=True, tag='', npts=None, nsc=None, optional=False, vectors=None):
     b, d = pos
     st = State()
-    ks, scref, ptref, width = setup_inputs(ex, st, aff, n, npts=npts, nsc=nsc)
+    ks, scref, ptref, width = setup_inputs(ex, st, aff, n, npts=npts, nsc=nsc, vectors=vectors)
     nmin = min(n if npts is None else npts, n if nsc is None else nsc)
-    ex.D.arity = n
-    R = [z3.BitVec('R%d' % i, WS) for i in range(n)]
+    dim = n if vectors is None else len(vectors[0])
+    ex.D.arity = dim
+    R = [z3.BitVec('R%d' % i, WS) for i in range(dim)]
     if top_bit_assumed:
         st.pc += [z3.Extract(63, 63, k[3]) == 0 for k in ks]
     got = {}
@@ -113,14 +119,17 @@ def step(ex, f, head, proj, aff, w, n, pos, nxt, chk, gname, top_bit_assumed=Tru
     lo = b - width_b + 1
     pre = '%s pippenger(w=%d,n=%d)%s @bit %d: ' % (gname, w, n, tag, b)
     diffs = []
+    digits = []
     for i in range(n):
-        if i < nmin:
-            k = z3.Concat(ks[i][3], ks[i][2], ks[i][1], ks[i][0])
-            digit = z3.Extract(lo + width_b - 1, lo, k)
-            want = (R[i] << d) + z3.ZeroExt(WS - width_b, digit)
-        else:
-            want = (R[i] << d)          # entries beyond min(#points, #scalars) contribute nothing
-        diffs.append(res2.c[i] != want)
+        k = z3.Concat(ks[i][3], ks[i][2], ks[i][1], ks[i][0]) if i < len(ks) else None
+        digits.append(z3.ZeroExt(WS - width_b, z3.Extract(lo + width_b - 1, lo, k)) if (i < nmin and k is not None) else z3.BitVecVal(0, WS))
+    for c_ in range(dim):
+        want = (R[c_] << d)
+        for i in range(n):
+            coef = (1 if i == c_ else 0) if vectors is None else vectors[i][c_]
+            if coef:
+                want = want + digits[i] * z3.BitVecVal(coef % (1 << WS), WS)      # entries beyond min(#points, #scalars) have digit 0
+        diffs.append(res2.c[c_] != want)
     chk.must_unsat(pre + "res' = 2^%d res + sum_i bits[%d..%d](k_i) e_i" % (d, lo, b), z3.And(pc, z3.Or(*diffs)), group='pippenger-step', cap=(400 if chk.tier == 'quick' else 1200), optional=optional)
     if final is None:
         if nxt is None:
@@ -388,6 +397,15 @@ def pippenger(ctx):
                 for pi in positions_for('quick', sched, wm):
                     nxt = sched[pi + 1] if pi + 1 < len(sched) else None
                     step(ex, f, head, proj, aff, wm, 2, sched[pi], nxt, chk, gname, tag=' with %d points / %d scalars' % (npts_, nsc_), npts=npts_, nsc=nsc_)
+        # linearly dependent points: P and -P (and P, P, -2P) -- the running sums of the reduction can pass through the identity, which
+        # independent generators never do; a branch on `is_zero` of an intermediate sum is only reachable here
+        if gname == 'G1':
+            for (wd, vecs) in [(2, [[1], [-1]]), (3, [[1], [1], [-2]])]:
+                sched = scheds[wd]
+                ex.unroll_limit = max((1 << wd) + 3, 40)
+                for pi in positions_for('quick', sched, wd)[:4]:
+                    nxt = sched[pi + 1] if pi + 1 < len(sched) else None
+                    step(ex, f, head, proj, aff, wd, len(vecs), sched[pi], nxt, chk, gname, tag=' with dependent points %s' % vecs, vectors=vecs)
         ex.unroll_limit = 600
         # precondition: top bit of every scalar clear -- the assert fires without it (first window only)
         nob = len(ex.obligations)
@@ -551,6 +569,8 @@ def native_differential(ctx):
             ('duplicate points', [P[2], P[2], P[2]], [big, 1 << 64, (1 << 128) + 1]),
             ('mutually inverse points, equal scalars', [P[3], neg(P[3])], [0x1234567890abcdef0123, 0x1234567890abcdef0123]),
             ('mutually inverse points', [P[4], neg(P[4]), P[0]], [rnd.randrange(1 << 255), rnd.randrange(1 << 255), (1 << 63)]),
+            ('mutually inverse points whose running sum passes through the identity', [P[3], neg(P[3])], [10, 4]),
+            ('P, P, -2P with small scalars', [P[0], P[0], neg(P[1])], [10, 10, 4]),
             ('zero scalars', [P[0], P[1]], [0, 0]),
             ('single bits at word boundaries', [P[0], P[1], P[2], P[3]], [1 << 63, 1 << 64, 1 << 127, 1 << 192]),
             ('all-ones', [P[1], P[4]], [big, big]),
